@@ -100,8 +100,13 @@ def _bounded_worker(arg):
     mod = importlib.import_module(prop_mod)
     fn = dict(mod.bounded_checks())[name]
     t0 = time.time()
+    import contextlib
+    import io
+    import warnings
+    warnings.simplefilter("ignore")
     try:
-        rep: BoundedReport = fn(tier, sd, shard, nshards) if nshards > 1 else fn(tier, sd)
+        with contextlib.redirect_stdout(io.StringIO()):  # pipefunc prints progress/notes; keep the check output clean
+            rep: BoundedReport = fn(tier, sd, shard, nshards) if nshards > 1 else fn(tier, sd)
         rep.wall_s = round(time.time() - t0, 2)
         return rep
     except Exception as e:  # noqa: BLE001
